@@ -60,7 +60,7 @@ pub struct Policy {
     /// if set: a hinted library mmap succeeds at its hint iff the hint page is in `free`
     pub free: Option<BTreeSet<u64>>,
     /// what an "occupied" hint gets: 0 = fail, 1 = a far address chosen by the kernel,
-    /// 2 = `elsewhere` (an explicit address), 3 = pass the hint to the kernel unchanged
+    /// 2 = `elsewhere` (an explicit address), 3 = pass the hint to the kernel unchanged, 4 = the lowest mappable page of `free`
     pub occupied: u8,
     pub elsewhere: u64,
     /// how many occupied hints get the `occupied` answer before the policy falls back to
@@ -204,6 +204,20 @@ pub unsafe extern "C" fn mmap(addr: *mut c_void, len: size_t, prot: c_int, flags
                     2 => {
                         how = "occ-else";
                         raw_mmap(p.elsewhere, len, prot, flags | libc::MAP_FIXED_NOREPLACE, fd, off)
+                    }
+                    // the kernel does not honour the hint and answers with another address -- here: the lowest page of `free`
+                    // that can still be mapped (a placement DICTATED by the driver is reached whatever pages the allocator asks for)
+                    4 => {
+                        how = "occ-free";
+                        let mut r = (-(libc::ENOMEM as i64)) as u64;
+                        for pg in free.iter() {
+                            let q = raw_mmap(*pg, len, prot, flags | libc::MAP_FIXED_NOREPLACE, fd, off);
+                            if !is_err(q) {
+                                r = q;
+                                break;
+                            }
+                        }
+                        r
                     }
                     _ => raw_mmap(hint, len, prot, flags, fd, off),
                 }
